@@ -121,8 +121,11 @@ func c16Read(mode string, typ string, chunks [][]byte) ([]byte, error) {
 			return got, err
 		}
 		got2, err2 := c16ReadWith(mode, typ, chunks, false, true)
-		if err2 != nil || !bytes.Equal(got, got2) {
+		if err2 != nil {
 			return got2, err2
+		}
+		if !bytes.Equal(got, got2) {
+			return got, fmt.Errorf("junk tolerance switched on by the configuration gives %q, switched on by the caller %q", got, got2)
 		}
 		return got, nil
 	}
